@@ -14,7 +14,7 @@ scale="${2:-0.05}"
 TMP="$(mktemp -d /var/tmp/lzsim-selftest.XXXXXX)"
 mkdir -p "$TMP/root"; cp "$ROOT/known_findings.json" "$TMP/root/" 2>/dev/null
 rc=0; total=0
-engines_of() { case "$1" in C08|C09|C10) echo lzsim-mt;; C04|C06|C13) echo "lzsim-st lzsim-mt";; C14) echo lzsim-xcfg;; *) echo lzsim-st;; esac; }
+engines_of() { case "$1" in C08|C09|C10) echo lzsim-mt;; C04|C06|C13|C18) echo "lzsim-st lzsim-mt";; C14) echo lzsim-xcfg;; *) echo lzsim-st;; esac; }
 for prop in C01 C02 C03 C04 C05 C06 C07 C08 C09 C10 C11 C12 C13 C14 C15 C16 C17 C18 C19; do
   for eng in $(engines_of $prop); do
     for cfg in "16" "5" "11"; do
